@@ -80,6 +80,7 @@ type Sim struct {
 	// extension hooks
 	afterBlockHooks []func(s *Sim)
 	statsTainted bool
+	orbDigest    string
 	escrowGifts  map[string]*big.Int
 	resyncPause  bool
 	lastDigests map[string]string
@@ -129,6 +130,7 @@ func (s *Sim) produceBlock(txs []*PendingTx, dtSec int, opID int) {
 	// shadows run on the committed pre-block state
 	for _, t := range txs {
 		if m, ok := t.Meta.(*txMeta); ok && m.Kind == "recv" {
+			m.soleInBlock = len(txs) == 1 && len(m.Pkts) == 1
 			s.preDelivery(m)
 		}
 	}
